@@ -1876,6 +1876,13 @@ fn step_temp_coll(env: &Env, ctx: &mut ThreadCtx, kind: KindTag, members: &[Memb
 					match then {
 						TempThen::Drop => drop(c),
 						TempThen::IntoChild => drop(c.into_child()),
+						TempThen::IntoIter => c.into_iter().for_each(drop),
+						TempThen::Inspect | TempThen::Borrow => {
+							let n = (&c).into_iter().count() + c.iter().count();
+							let _ = (n, c.child().len(), format!("{c:?}"));
+							let _: &Vec<crate::types::Mem> = c.as_ref();
+							drop(c)
+						}
 					}
 				}
 			}
@@ -1884,12 +1891,28 @@ fn step_temp_coll(env: &Env, ctx: &mut ThreadCtx, kind: KindTag, members: &[Memb
 					match then {
 						TempThen::Drop => drop(c),
 						TempThen::IntoChild => drop(c.into_child()),
+						TempThen::IntoIter => c.into_iter().for_each(drop),
+						TempThen::Inspect | TempThen::Borrow => {
+							let n = (&c).into_iter().count() + c.iter().count();
+							let _ = (n, c.child().len(), format!("{c:?}"));
+							let _: &Vec<crate::types::Mem> = c.as_ref();
+							drop(c)
+						}
 					}
 				}
 			}
 			KindTag::Ref => {
-				let c = RefC::try_new(&v);
-				drop(c);
+				if let Some(c) = RefC::try_new(&v) {
+					match then {
+						TempThen::Drop | TempThen::IntoChild => drop(c),
+						TempThen::IntoIter => c.into_iter().for_each(|_| ()),
+						TempThen::Inspect | TempThen::Borrow => {
+							let n = (&c).into_iter().count() + c.iter().count();
+							let _ = (n, c.child().len(), format!("{c:?}"));
+							drop(c)
+						}
+					}
+				}
 			}
 			KindTag::Owned => {}
 		}
